@@ -110,6 +110,20 @@ class SimDeadlock(Exception):
     pass
 
 
+_prev_unraisable = sys.unraisablehook
+
+
+def _unraisable(u: Any) -> None:
+    # a generator of a killed process that is finalised while the zombie unwinds: its
+    # cleanup raises SimKilled as every later step of that process does; nothing to report
+    if isinstance(u.exc_value, SimKilled):
+        return
+    _prev_unraisable(u)
+
+
+sys.unraisablehook = _unraisable
+
+
 
 
 class HarnessError(Exception):
